@@ -370,8 +370,7 @@ class _Optimizers(_Algorithm2D):
         params = {}
         for i, axis in enumerate(axes):
             fitter = Baseline(
-                axis_values[axis], check_finite=self._check_finite, assume_sorted=assume_sorted,
-                output_dtype=self._dtype
+                axis_values[axis], check_finite=self._check_finite, assume_sorted=assume_sorted
             )
             fitter.banded_solver = self.banded_solver
             baseline_func = fitter._get_method(method)
